@@ -44,7 +44,11 @@ class QInteger(QToken):
 
     @staticmethod
     def parse(string: str, namespace: dict) -> QToken:
-        return QInteger(int(string))
+        try:
+            return QInteger(int(string))
+        except ValueError:
+            # str.isdigit() is also true for characters such as '²' that int() rejects
+            raise QueryParseException(f"Invalid integer: {string}") from None
 
     @staticmethod
     def check(string: str):
